@@ -773,6 +773,10 @@ def getinterpweights(xs, nxs, kind='linear', fill_value='extrapolate',
 
     """
     from scipy.interpolate import interp1d
+    if np.size(xs) == 1:
+        # one source level: the only line through one point is the constant,
+        # every target takes the value with weight one (interp1d gives nan)
+        return np.ones((1, np.size(nxs)), dtype='d')
     # identity matrix
     ident = np.identity(xs.size)
     # weight function; use bounds outside
